@@ -245,8 +245,8 @@ def main(tier, replay_payload=None):
         if p.get("harness") == "c16fault":
             return replay_seq_fault(tier, p)
         mod = C07 if p.get("family") == "C07" else C12
-        return conc.replay_schedule(mod.W_ARGS, mod.scenarios_for(tier), p["k"], p["log"], p["bound"],
-                                    p["clauses"][0], mp=True)
+        fn = mod.claim_scenarios(tier) if p.get("claim") else mod.scenarios_for(tier)
+        return conc.replay_schedule(mod.W_ARGS, fn, p["k"], p["log"], p["bound"], p["clauses"][0], mp=True)
     if replay_payload is not None:
         return replayer(replay_payload)
     run = report.Run("C16", tier, technique="pathsym relational step (both synchronisation modes in one path, z3 validity "
@@ -288,6 +288,13 @@ def main(tier, replay_payload=None):
             C07.fold(run, [dict(o, stats=o["stats"] if prefix == "LIN:" else {}) for o in outs], prefix, bound)
         for sig in set(run.failures) - before:
             run.failures[sig]["payload"]["family"] = fam
+        # claiming an identifier must be atomic in this mode too: one pair per locked list, two preemptions
+        outs = conc.explore_scenarios(mod.W_ARGS, mod.claim_scenarios(tier), 2, mp=True)
+        before = set(run.failures)
+        for prefix in ("LIN:", "C08:"):
+            C07.fold(run, [dict(o, stats=o["stats"] if prefix == "LIN:" else {}) for o in outs], prefix, 2)
+        for sig in set(run.failures) - before:
+            run.failures[sig]["payload"].update(family=fam, claim=True)
     run.functions = loader.function_lines(loader.load(), API_FUNCS + [
         "FileHashStore.__init__", "FileHashStore._synchronize_object_locked_pids",
         "FileHashStore._release_object_locked_pids", "FileHashStore._synchronize_object_locked_cids",
